@@ -90,6 +90,7 @@ def call_spec(funcs=tuple(FUNCS), coefs=None, max_deg=5, n_max=6, max_terms=7, s
                 "in_order": gen.pick((True, 1), (False, 1)),
                 # labelled kinds: install another (documented) label -> integer mapping with set_mapping first
                 "remap": gen.pick((False, 3), (True, 1)) if kind in gen.LABELLED_KINDS else st.just(False),
+                "reuse": gen.pick((False, 4), (True, 1)) if kind in gen.LABELLED_KINDS else st.just(False),
                 "seed": seeds,
                 # how an explicit schedule is handed over: the documented "iterable of floats" as a list of floats, with
                 # integral temperatures as python ints, as a tuple, a numpy array, a generator or Fractions
@@ -139,7 +140,17 @@ def prepare(qv, spec):
     if kind == "dict":
         model = gen.terms_dict(terms)
     else:
-        model = gen.build(qv, kind, terms)
+        if spec.get("reuse") and kind in gen.LABELLED_KINDS and len(spec["labels"]) >= 2:
+            # an object with a past: first another model over the same labels in rotated roles (so every label had a
+            # different integer and the degree / variable bookkeeping was different), then clear() and the real terms
+            labs = list(spec["labels"])
+            rot = dict(zip(labs, labs[1:] + labs[:1]))
+            model = gen.build(qv, kind, [[tuple(rot.get(l, l) for l in reversed(k)), v] for k, v in terms] + [[(labs[-1],), 1]])
+            model.clear()
+            for k, v in terms:
+                model[tuple(k)] += v
+        else:
+            model = gen.build(qv, kind, terms)
         for k in spec.get("stale") or []:
             k = tuple(k)
             model[k] += 1
